@@ -8,8 +8,10 @@
 
 from __future__ import annotations
 
+import builtins
 import copy
 import logging
+import sys
 import threading
 from collections.abc import Sized
 from types import ModuleType
@@ -418,8 +420,17 @@ class RemoteAssertionTraceObserver(ex.RemoteExecutionObserver):
         if not hasattr(typ, "__module__") or not hasattr(typ, "__qualname__"):
             return False
         if typ.__module__ == "builtins":
-            return True
-        return typ.__module__ == config.configuration.module_name
+            owner: Any = builtins
+        elif typ.__module__ == config.configuration.module_name:
+            owner = sys.modules.get(typ.__module__)
+        else:
+            return False
+        # The rendered assertion refers to the type by its qualified name, so that
+        # name must actually lead to the type: ``builtins.function``, ``dict_keys``
+        # or classes defined inside a function (``f.<locals>.C``) do not resolve.
+        for part in typ.__qualname__.split("."):
+            owner = getattr(owner, part, None)
+        return owner is typ
 
 
 class RemoteAssertionVerificationObserver(ex.RemoteExecutionObserver):
